@@ -83,10 +83,31 @@ def op_restrict(ctx, m, step, sig):
             kw['skip_boundaries'] = True
         if step.get('skip_s'):
             kw['skip_subdomains'] = True
+        # the selection may be stated in every way normalize_elements documents (the kept cells are then the sorted union)
+        arg = sel
+        spell = step.get('spell', 'array')
+        if spell != 'array' and type(m).__name__.endswith('1'):
+            sel = np.unique(sel)
+            h2 = len(sel) // 2
+            if spell == 'int32':
+                arg = sel.astype(np.int32)
+            elif spell == 'union':
+                arg = [sel[:h2 + 1].astype(np.int32), sel[h2:][::-1].astype(np.int32)]        # overlapping pieces
+            elif spell == 'bool_like_list':
+                arg = (sel.astype(np.int32),)
+            else:
+                cen = m.p[:, m.t].mean(axis=1)
+                chosen = cen[:, sel]
+                hh = np.abs(m.p).max() + 1.0
+                if len(np.unique(np.round(cen.T / hh, 9), axis=0)) < m.nelements:
+                    raise Reject()      # coinciding centroids: the predicate could not tell the cells apart
+
+                def arg(x, chosen=chosen, hh=hh):
+                    return np.array([np.any(np.all(np.abs(chosen - x[:, k:k + 1]) <= 1e-12 * hh, axis=0)) for k in range(x.shape[1])])
         if step.get('mapping'):
-            new, ix = m.restrict(sel, return_mapping=True, **kw)
+            new, ix = m.restrict(arg, return_mapping=True, **kw)
         else:
-            new, ix = m.restrict(sel, **kw), None
+            new, ix = m.restrict(arg, **kw), None
         kept = sel
     if mhash(m) != before:
         ctx.fail('operand_modified', mode, **sig)
@@ -226,7 +247,8 @@ def case_restrict(draw, tier):
     tg = draw(gt.tags(nc, pools=('boundary', 'interior', 'all')))
     step = dict(op='restrict', picks=draw(st.lists(st.integers(0, 10**4), min_size=1, max_size=nc)),
                 sorted=draw(st.booleans()), mode=draw(st.sampled_from(['restrict', 'restrict', 'remove'])),
-                mapping=draw(st.booleans()), skip_b=draw(st.integers(0, 5)) == 0, skip_s=draw(st.integers(0, 5)) == 0)
+                mapping=draw(st.booleans()), skip_b=draw(st.integers(0, 5)) == 0, skip_s=draw(st.integers(0, 5)) == 0,
+                spell=draw(st.sampled_from(['array', 'array', 'int32', 'predicate', 'union', 'bool_like_list'])))
     return dict(mesh=desc, tags=tg, step=step)
 
 
